@@ -571,7 +571,7 @@ func (ex *Exec) record(l Loc, v *Val) {
 			r = &writeRec{loc: l}
 			c.written[k] = r
 		}
-		if v != nil && (v.K == KPtr || v.K == KSlice) {
+		if v != nil && (v.K == KPtr || v.K == KSlice || v.K == KIface) {
 			r.vals = append(r.vals, v)
 		}
 	}
